@@ -585,8 +585,16 @@ package actor
 // a verified contract left one precondition of doKill undischarged). What a restart does and does not do is stated
 // - and verified - on doKill / onKilled: with `restarting` set the actor is never released and no termination is
 // announced (C08: same reference).
+// Its body is checked (`bodycheck`) for one thing: a restart message is honoured in EVERY state - each call records
+// the restart and enters the kill chain exactly once (a zombie, which sits in state killed, is released only through
+// this path when a sibling's failure restarts it; ignoring the message there leaves it paused for good, C09).
 //@ func (*Context).onRestart
 //@   trusted
+//@   bodycheck
+//@   ghostvar dk int
+//@   callspec doKill sets dk = dk + 1
+//@   bodyensures dk == 1
+//@   assumes  ctxwf(c) && message != nil && behavior != nil && c.envelop != nil
 //@   modifies anyold, gmap(told), gmap(toldn), gmap(tells), gmap(unregistered), gmap(unsuball), gmap(published), gmap(resumes), gmap(pauses), gmap(failures), gmap(deleted), gmap(schedtried), gmap(scheduled), gmap(chclosed), gmap(piped), gmap(pipedn), ghost(calls_closer), ghost(calls_behavior)
 // Ping (C15): exactly one PongMessage (a user message) goes back to the sender of the ping, to nobody else
 //@ func (*Context).onPing
